@@ -4,7 +4,24 @@ _CACHE_STREAM = {"name": "cache", "quick": 30000, "thorough": 400000, "thorough_
 
 _FRAG_STREAM = {"name": "frag", "quick": 25000, "thorough": 400000, "thorough_seeds": 3, "stateful": True, "seq_start": ("frag-new", "mb-new")}
 
+_KE_STREAM = {"name": "ke", "quick": 30000, "thorough": 400000, "thorough_seeds": 3, "stateful": True, "seq_start": "reset"}
+_KE_RULE = ("lock-step scenarios over real p2pke Sessions and Channels (timers detached, driven by the harness): 2-7 sessions "
+            "(an honest pair, an unrelated pair, adversary sessions holding their own key) or 2-3 channels with acceptance "
+            "predicates all/none/only:k; ops: deliver any message ever emitted to any party, retransmit, send, rekey, handshake "
+            "timer, and adversary transforms (junk with chosen header counter, truncation, hello with a foreign ephemeral, "
+            "spliced ephemeral+claim); messages are named by emission index on both sides; a case is one op line")
+_KE_ASSUME = ["cryptography is symbolic/ideal in the model (Noise NN, ChaCha20-Poly1305, Ed25519, BLAKE2b): a term opens only under the "
+              "matching ephemerals/transcript/counter, a signature verifies only for signer, purpose and data; the adversary is "
+              "restricted to the constructions of `Buildable`",
+              "channel operations are lock-step with detached timers; wall-clock behaviour (keep-alive, restart) is checked by the real-time oracle and is exploration"]
+
 PROPS = {
+    "C02": {"streams": [_KE_STREAM], "oracles": ["ke"], "rule": _KE_RULE, "assumptions": _KE_ASSUME,
+            "oracle_n": {"quick": 3000, "thorough": 60000}},
+    "C03": {"streams": [_KE_STREAM], "oracles": ["ke"], "rule": _KE_RULE, "assumptions": _KE_ASSUME,
+            "oracle_n": {"quick": 3000, "thorough": 60000}},
+    "C06": {"streams": [_KE_STREAM], "oracles": ["ke"], "rule": _KE_RULE, "assumptions": _KE_ASSUME,
+            "oracle_n": {"quick": 3000, "thorough": 60000}},
     "C10": {
         "streams": [_FRAG_STREAM],
         "oracles": ["frag"],
